@@ -186,7 +186,26 @@ func runC16History(c *mon.Ctx) {
 			cands = append(cands, mk(fmt.Sprintf("PSA_IOT_PROFILE_1_H%d", i), 1))
 		}
 	}
+	// two candidates whose names are distinct strings but the same URI to a normalising comparison
+	if g.R.Intn(2) == 0 {
+		cands[1] = mk(strings.Replace(cands[0].name, "http://", "HTTP://", 1), 2)
+		if cands[0].base != 2 {
+			cands[0] = mk(fmt.Sprintf("http://example.com/h%d/p0", hid%1000), 2)
+			cands[1] = mk(fmt.Sprintf("HTTP://example.com/h%d/p0", hid%1000), 2)
+		}
+	}
 	universe := append([]*c16Cand{mk(model.P1Name, 1), mk(model.P2Name, 2), mk("http://example.com/never-registered", 2), mk("PSA_IOT_PROFILE_NEVER", 1)}, cands...)
+	{
+		// documents with one profile member null and the other naming an unregistered profile
+		a := g.Valid(1)
+		a.Profile = nil
+		ms := append(a.JSONMembers(), model.Member{Name: "psa-profile", Value: "null"}, model.Member{Name: "eat-profile", Value: `"http://example.com/never-registered"`})
+		universe = append(universe, &c16Cand{name: "(psa-profile null, eat-profile unregistered)", base: 1, cbor: refcbor.Encode(a.WireCBOR()), json: model.MembersJSON(ms)})
+		ms2 := append(a.JSONMembers(), model.Member{Name: "eat-profile", Value: "null"}, model.Member{Name: "psa-profile", Value: `"PSA_IOT_PROFILE_NEVER"`})
+		universe = append(universe, &c16Cand{name: "(eat-profile null, psa-profile unregistered)", base: 1, cbor: refcbor.Encode(a.WireCBOR()), json: model.MembersJSON(ms2)})
+		ms3 := append(a.JSONMembers(), model.Member{Name: "eat-profile", Value: "null"}, model.Member{Name: "psa-profile", Value: "null"})
+		universe = append(universe, &c16Cand{name: "(both profile members null)", base: 1, cbor: refcbor.Encode(a.WireCBOR()), json: model.MembersJSON(ms3)})
+	}
 	{
 		// documents that declare a profile under BOTH profile members: whatever the outcome
 		// is (error, or one of the two), it must be the same on every call
@@ -513,11 +532,30 @@ func runC16History(c *mon.Ctx) {
 					_ = in.x.SetInstID(g.InstID())
 					desc = "SetInstID"
 				case 6:
-					_ = in.x.SetSecurityLifeCycle(g.Lifecycle())
+					lc := g.Lifecycle()
+					if g.R.Intn(2) == 0 {
+						lc &= 0xff00 // the "base" value of a state
+					}
+					_ = in.x.SetSecurityLifeCycle(lc)
 					desc = "SetSecurityLifeCycle"
 				case 7: // write through pointer fields
 					desc = "write-through-pointers"
 					if p := p1Of(in.x); p != nil {
+						if p.SecurityLifeCycle != nil {
+							*p.SecurityLifeCycle = 0xfff0
+						}
+						if p.BootSeed != nil && len(*p.BootSeed) > 0 {
+							(*p.BootSeed)[0] ^= 0xff
+						}
+						if p.CertificationReference != nil {
+							*p.CertificationReference = "overwritten"
+						}
+						if p.InstID != nil && len(*p.InstID) > 1 {
+							(*p.InstID)[1] ^= 0xff
+						}
+						if p.NoSwMeasurements != nil {
+							*p.NoSwMeasurements = 7
+						}
 						if p.ClientID != nil {
 							*p.ClientID ^= 0x55
 						}
@@ -534,6 +572,18 @@ func runC16History(c *mon.Ctx) {
 							*p.VSI = "overwritten"
 						}
 					} else if p := p2Of(in.x); p != nil {
+						if p.SecurityLifeCycle != nil {
+							*p.SecurityLifeCycle = 0xfff0
+						}
+						if p.BootSeed != nil && len(*p.BootSeed) > 0 {
+							(*p.BootSeed)[0] ^= 0xff
+						}
+						if p.CertificationReference != nil {
+							*p.CertificationReference = "overwritten"
+						}
+						if p.VSI != nil {
+							*p.VSI = "overwritten"
+						}
 						if p.ClientID != nil {
 							*p.ClientID ^= 0x55
 						}
@@ -584,6 +634,21 @@ func runC16History(c *mon.Ctx) {
 				c.Eval()
 				in.obs = obsString(in.x)
 				in.ptrs = innerPointers(in.x)
+				// what a setter stored must be this instance's own storage too
+				for _, o := range insts {
+					if o == in {
+						continue
+					}
+					for _, pp := range in.ptrs {
+						for _, qq := range o.ptrs {
+							if pp == qq {
+								fail("instances-share-state-after-mutation/"+desc, fmt.Sprintf("after %s an instance (from %s) shares a pointer with another instance (from %s)", desc, in.how, o.how), nil)
+								stop = true
+								return
+							}
+						}
+					}
+				}
 				if !othersUnchanged(in, desc) {
 					stop = true
 					return
